@@ -99,6 +99,8 @@ class GDict:
         self.HAS = has if has is not None else z3.K(self.ksort, z3.BoolVal(False))
         self.VAL = val if val is not None else z3.Array("%s_val0" % name, self.ksort, self.vsort)
         self.writes = 0
+        self.key_obj = None  # term -> Python-level key object (needed to explore comprehensions over the keys)
+        self.wrap_out = self.unwrap_out = self.vsort_out = None  # value encoding of dicts derived by comprehension
 
     @classmethod
     def symbolic(cls, name, **kw):
@@ -164,7 +166,49 @@ class GDict:
                 return v
 
             return GhostFn(pop, "dict.pop")
+        if name == "items":
+            return GhostFn(lambda i2, a, kw: GItems(self), "dict.items")
+        if name == "keys":
+            return GhostFn(lambda i2, a, kw: GKeys(self, []), "dict.keys")
         raise Unsupported("ghost dict: attribute %s" % name)
+
+
+class GItems:
+    """`d.items()` of a ghost dict: iterated only under the independent-iterations rule (foreach_items)"""
+
+    __pyvc_symbolic__ = True
+
+    def __init__(self, src):
+        self.src = src
+
+
+def foreach_items(label):
+    """Loop rule for `for k, v in <ghost dict>.items(): body` whose iterations are independent (the body reads the pair and
+    writes only state owned by that pair): the body is explored once for a generic key present in the dict; the path after the
+    loop continues with the dict unchanged.  Whatever the body must guarantee is obliged on the generic-key leg."""
+
+    def spec(it, node, frame, seq):
+        from .engine import PathDone
+
+        if not isinstance(seq, GItems):
+            raise Unsupported("foreach_items over %r" % (seq,))
+        d = seq.src
+        if d.key_obj is None:
+            raise Unsupported("ghost dict without a key-object builder")
+        path = it.path
+        it.path.assumed.add("%s: iterations independent (each reads its own (key, value) pair and writes only state owned by that value)" % label)
+        if path.fork_free(2) == 0:
+            g = path.fresh("item_key", d.ksort)
+            path.assume(d.has(g))
+            path.ghost["generic_item_key"] = g
+            it.assign(node.target, (d.key_obj(g), d.unwrap(d.val(g))), frame)
+            it.exec_block(node.body, frame)
+            path.ghost["foreach_done"] = True
+            from .engine import _Return
+
+            raise _Return(None)  # this leg ends here: the contract inspects what the body did for the generic key
+
+    return spec
 
 
 def _atom_of(t):
@@ -265,3 +309,119 @@ class GText:
             arr = self.hole(p, sort)
             g.holes[key] = z3.Store(arr, self.cnt, term)
         return g
+
+
+class GKeys:
+    """lazy `(k for k in <ghost dict> if cond(k))`: the keys of a ghost dict that pass the filters (identity element only)"""
+
+    __pyvc_symbolic__ = True
+
+    def __init__(self, src, filters):
+        self.src, self.filters = src, filters  # filters: list of (target node, [if nodes], frame)
+
+
+def _gdict_lazy_filter(self, it, node, gen, frame):
+    import ast
+
+    if not (isinstance(node.elt, ast.Name) and isinstance(gen.target, ast.Name) and node.elt.id == gen.target.id):
+        raise Unsupported("generator over a ghost dict that maps its keys")
+    return GKeys(self, [(gen.target, list(gen.ifs), frame)])
+
+
+def _gdict_iter(self, it):
+    return GKeys(self, [])
+
+
+GDict.sym_lazy_filter = _gdict_lazy_filter
+
+
+def dictcomp(it, node, frame, src):
+    """{K: V for k in <keys of a ghost dict> if C}: explored once for a generic key.  K must be the key itself.  The result is
+    a ghost dict with HAS(k) = source has k and every filter holds, VAL(k) = V evaluated at k.  If evaluating the filters or V
+    can raise for some key, the current path forks: one leg raises (with a witness key), the other assumes no key does."""
+    import ast
+
+    from .engine import Frame, Infeasible, Path
+
+    gen = node.generators[0]
+    if isinstance(src, GDict):
+        base, filters = src, []
+    else:
+        base, filters = src.src, list(src.filters)
+    if base.key_obj is None:
+        raise Unsupported("ghost dict without a key-object builder")
+    if not (isinstance(node.key, ast.Name) and isinstance(gen.target, ast.Name) and node.key.id == gen.target.id):
+        raise Unsupported("dict comprehension over a ghost dict that maps its keys")
+    g = z3.Const(_fresh("gk"), base.ksort)
+    outer = it.path
+    results = []
+    work = [[]]
+    while work:
+        prefix = work.pop()
+        p = Path(prefix, outer.timeout)
+        p.pc = list(outer.pc) + [base.has(g)]
+        p.n = outer.n + 900 * (len(results) + 1)
+        p.assumed = outer.assumed
+        start = len(p.pc)
+        sub = type(it)(p, loop_specs=it.loop_specs, summaries=it.summaries)
+        sub.depth, sub.active = max(1, it.depth), list(getattr(it, 'active', []))
+        try:
+            passed = True
+            kobj = base.key_obj(g)
+            for tgt, ifs, fr0 in filters:
+                fr = Frame(fr0.fn, {}, fr0.node, fr0.qn)
+                fr.globals, fr.cells, fr.parent = fr0.globals, fr0.cells, fr0
+                sub.assign(tgt, kobj, fr)
+                for cnd in ifs:
+                    if not sub.truth(sub.eval(cnd, fr)):
+                        passed = False
+                        break
+                if not passed:
+                    break
+            if passed:
+                fr = Frame(frame.fn, {}, frame.node, frame.qn)
+                fr.globals, fr.cells, fr.parent = frame.globals, frame.cells, frame
+                sub.assign(gen.target, kobj, fr)
+                for cnd in gen.ifs:
+                    if not sub.truth(sub.eval(cnd, fr)):
+                        passed = False
+                        break
+            if not passed:
+                results.append((p.pc[start:], "skip", None))
+            else:
+                v = sub.eval(node.value, fr)
+                results.append((p.pc[start:], "value", v))
+        except Infeasible:
+            pass
+        except PyRaise as e:
+            results.append((p.pc[start:], "raise", e))
+        work.extend(p.pending)
+        if len(results) > 32:
+            raise Unsupported("dict comprehension value has more than 32 paths")
+    conj = lambda cs: z3.And(*cs) if cs else z3.BoolVal(True)
+    raises = [(conj(cs), e) for cs, k, e in results if k == "raise"]
+    if raises:
+        leg = outer.fork_free(len(raises) + 1)
+        if leg < len(raises):
+            guard, e = raises[leg]
+            w = outer.fresh("bad_key", base.ksort)
+            outer.assume(z3.And(base.has(w), z3.substitute(guard, (g, w))))
+            outer.ghost.setdefault("dictcomp_raise_witness", []).append(w)
+            raise PyRaise(e.exc_cls, e.exc_args)
+        q = z3.Const(_fresh("gq"), base.ksort)
+        for guard, e in raises:
+            outer.assume(z3.ForAll([q], z3.Implies(base.has(q), z3.Not(z3.substitute(guard, (g, q))))))
+    vals = [(conj(cs), v) for cs, k, v in results if k == "value"]
+    res = GDict("dictcomp", key_of=base.key_of, wrap=base.wrap_out or base.wrap, unwrap=base.unwrap_out or base.unwrap, ksort=base.ksort, vsort=base.vsort_out if base.vsort_out is not None else base.vsort)
+    res.key_obj = base.key_obj
+    has_body = z3.And(base.has(g), z3.Or(*[c for c, _ in vals]) if vals else z3.BoolVal(False))
+    res.HAS = z3.Lambda([g], has_body)
+    if vals:
+        wrap = base.wrap_out or base.wrap
+        body = wrap(vals[-1][1])
+        for cnd, v in reversed(vals[:-1]):
+            body = z3.If(cnd, wrap(v), body)
+        res.VAL = z3.Lambda([g], body)
+    res.generic = g
+    outer.ghost.setdefault("dictcomps", []).append(res)
+    return res
